@@ -11,8 +11,8 @@ RULE = ('strongly consistent generated bases (<= 4 atoms, <= 5 conditionals; eve
         'EVERY world with the sum of the impacts of the conditionals it falsifies, accept every base conditional, '
         'be Pareto-minimal (exact: every vector in the box below it is tested), and accept every query with '
         'satisfiable antecedent that the c-inference operator answers True. c_inference_pareto_front(bb) runs '
-        'under a logical step counter on z3.Optimize.check: more than 4*(m+2)+8 checks (m = number of Pareto-minimal '
-        'vectors in the reference box) or a repeated vector is a non-termination / duplication verdict; the '
+        'under a logical step counter on z3.Optimize.check: more than max(4*(m+2)+8, 300) checks (m = number of Pareto-minimal '
+        'vectors in the reference box; 4000 for the large cases) or a repeated vector is a non-termination / duplication verdict; the '
         'returned set must equal the reference front inside the box {0..max+2}^n. Non-trivial = base whose minimal '
         'impact vector is not all ones, or whose front has >= 2 members; distinct by hash(base).')
 ASSUMPTIONS = ['front completeness is decided inside the box {0..max(front)+2}^n; minimal vectors outside it are out of reach',
@@ -162,7 +162,11 @@ def run_case(case):
     else:
         ref_front = sorted(cs.pareto_front_box(U))
         m = len(ref_front)
-    limit = 4 * (m + 2) + 8
+    # bounded progress in logical steps: one check per front member plus a few; generous slack, because the
+    # reference box may not contain the whole front (and for large cases there is no box at all — a 14-rule
+    # base was observed with 72 front members).  Non-termination means repeating for ever, so slack costs
+    # only a fraction of a second of detection time.
+    limit = 4000 if large else max(4 * (m + 2) + 8, 300)
     orig = z3.Optimize.check
     st = {'n': 0}
 
